@@ -74,7 +74,7 @@ func runC04K2(c *Ctx) {
 			}
 			refilled := And(StoreTo(cacheF), Pred("≠ nil", func(in ssa.Instruction) bool { return !isNilConst(in.(*ssa.Store).Val) }))
 			fl := NewFlow(c.P).After("cleared:"+pr.cache, cleared).KillAfter("cleared:"+pr.cache, refilled)
-			fl.MaxDepth = 0
+			fl.MaxDepth = 2 // the clearing may sit in a small helper (callee summary)
 			res := fl.Analyze(fn, emptyState())
 			n += c.Require("C04.K2", res, insertUse, "the cached "+pr.cache+" fragments are cleared on every path that inserts into "+pr.index, []string{"cleared:" + pr.cache})
 		}
